@@ -93,7 +93,9 @@ def run(ctx):
     moving = [[], [], ["--patch"], ["--minor"], ["--patch", "--pin-increments"], ["--pin-increments"], ["--major", "--pin-increments"]]
     for i, s in enumerate(chain_starts[:n_chains]):
         pat, pre, fl = [("BUILD", "", [[]]), ("vYYYY.BUILD", "v2021.", [[], ["--pin-increments"]]), ("MAJOR.MINOR.PATCH+BUILD", "1.0.2+", moving), ("BUILD", "", [[]]),
-                        ("vMAJOR.MINOR.INC0.BUILD", "v1.9.7.", [f for f in moving if "--patch" not in f])][i % 5]
+                        ("vMAJOR.MINOR.INC0.BUILD", "v1.9.7.", [f for f in moving if "--patch" not in f]), ("vYYYY.BLD", "v2021.", [[], ["--pin-increments"]])][i % 6]
+        if "BLD" in pat:
+            s = s.lstrip("0") or "7"           # BLD is the build number without padding: the same counter, the same growth
         jobs.append((s, steps, pat, pre, fl, ctx.seed * 1009 + i))
     n_chain_ev = 0
     for job, evs in zip(jobs, drive.pmap(_chain, jobs, hooks=False)):
@@ -121,7 +123,7 @@ def run(ctx):
         ctx.violation(dict(clause=f["clause"], width=len(b), padded=b.startswith("0") and len(b) > 1),
                       case=dict(start=b, pattern="BUILD", generated=e["generated"], note=e["dbg"]),
                       expected=f["detail"], observed=n)
-    ctx.rule = ("one bump from every digit string of length 1..%d (library) plus %d CLI chains of up to %d bumps (BUILD alone, behind a calendar part, behind MAJOR/MINOR/PATCH/INC0 moved by --patch/--minor/--major/--pin-increments); "
+    ctx.rule = ("one bump from every digit string of length 1..%d (library) plus %d CLI chains of up to %d bumps (BUILD alone, behind a calendar part, spelled BLD, behind MAJOR/MINOR/PATCH/INC0 moved by --patch/--minor/--major/--pin-increments); "
                 "distinct = distinct BUILD values bumped; every one is non-trivial (each exercises the successor)" % (K, len(jobs), steps))
     ctx.exhaustive = False
     ctx.sample(dict(start="0999", next=glue.uncp(by_id[starts.index("0999") + 1]["n"])))
